@@ -55,7 +55,7 @@ func mwDirectives(c *mwCase) string {
 		}
 		return "Off"
 	}
-	s := fmt.Sprintf("SecRuleEngine On\nSecRequestBodyAccess %s\nSecRequestBodyLimit 8\nSecRequestBodyInMemoryLimit 8\nSecRequestBodyLimitAction %s\nSecResponseBodyAccess %s\nSecResponseBodyLimit 8\nSecResponseBodyLimitAction %s\nSecResponseBodyMimeType text/plain\n",
+	s := fmt.Sprintf("SecRuleEngine On\nSecRequestBodyAccess %s\nSecRequestBodyLimit 8\nSecRequestBodyInMemoryLimit 4\nSecRequestBodyLimitAction %s\nSecResponseBodyAccess %s\nSecResponseBodyLimit 8\nSecResponseBodyLimitAction %s\nSecResponseBodyMimeType text/plain\n",
 		onoff(c.ReqAccess), c.ReqAction, onoff(c.RespAccess), c.RespAction)
 	switch c.Ctl {
 	case "reqOn1":
@@ -91,9 +91,20 @@ type mwHandlerRec struct {
 	read    map[string][]byte
 }
 
+// hiddenLen hides the length of a body (the client then sends it chunked) and hands it over three bytes at a
+// time with a pause, so that the server reads it in several pieces.
 type hiddenLen struct{ r io.Reader }
 
-func (h hiddenLen) Read(p []byte) (int, error) { return h.r.Read(p) }
+func (h hiddenLen) Read(p []byte) (int, error) {
+	if len(p) > 3 {
+		p = p[:3]
+	}
+	n, err := h.r.Read(p)
+	if n > 0 {
+		time.Sleep(2 * time.Millisecond)
+	}
+	return n, err
+}
 
 func scriptString(s []mwOp) string {
 	var ps []string
